@@ -43,7 +43,7 @@ def const_call(interp: Interp, rel: str, fn: str, args: List[int]):
 
 def _opaque_path(o) -> bool:
     """the outcome lies on a path whose condition involves a value the interpreter could not model"""
-    return any(type(at).__name__ == "Opaque" for c, t, _ in o.state.path for at in (c.left - c.right).atoms())
+    return any((c.left.has_opaque() or c.right.has_opaque()) for c, t, _ in o.state.path)
 
 
 def children_family(interp: Interp, c: Lin, b: Any):
@@ -96,7 +96,7 @@ def check_pair(ctx, su: Setup, a: int, b: int):
     tag = f"{Q}.cell_to_children(res {a} -> {b})"
     rets, raises = children_family(interp, c, Lin(b))
     for o in raises:
-        if any(type(at).__name__ == "Opaque" for c, t, _ in o.state.path for at in (c.left - c.right).atoms()):
+        if any((c.left.has_opaque() or c.right.has_opaque()) for c, t, _ in o.state.path):
             ctx.unk("C06.0", f"{tag}: may raise {_exc(o.value)}", core.loc(SER, o.node), f"on a path whose condition is not decided: [{describe_path(o.state)[:200]}]")
             continue
         su.raising.setdefault((b, _exc(o.value)), []).append((a, core.loc(SER, o.node), describe_path(o.state)))
